@@ -21,7 +21,7 @@ ID = "C17"
 TECHNIQUE = "symbolic execution of the real ScenarioLoader.load on documents with solver-variable leaves (numbers, name choices, membership and presence bits); acceptance and field-by-field fidelity decided by z3; replay through a real YAML file"
 needs_reach = False
 EXTRA_STUBS = loaderh.EXTRA_STUBS + dyn.EXTRA_STUBS
-REQUIRED_WITNESSES = ['accepted', 'skeleton_A', 'skeleton_B', 'shipped', 'no_step_limit', 'empty_privescs']
+REQUIRED_WITNESSES = ['accepted', 'skeleton_A', 'skeleton_B', 'skeleton_C', 'shipped', 'no_step_limit', 'empty_privescs']
 STUBS = ["nasim.scenarios.utils.load_yaml -> returns the harness' document (PyYAML is used again in the replay, which goes through a real file)",
          "int/float/bool/isinstance/type/min/max/math.isclose -> virtual builtins that keep proxies symbolic"]
 ASSUMPTIONS = ["validity predicate = the documented YAML format (docs/source/tutorials/creating_scenarios.rst)",
@@ -41,6 +41,7 @@ def queries(tier, seed=0):
                 qs.append(dict(kind='skel', skel=sk, numtype=nt, **g))
         qs.append(dict(kind='skel', skel=sk, numtype='float', sym=['nums'], picks=['e_ftp'] if sk == 'B' else []))
     qs.append(dict(kind='skel', skel='B', numtype='float', sym=['nums'], picks=[], privescs=0))
+    qs.append(dict(kind='skel', skel='C', numtype='float', sym=['nums', 'hostvalue'], picks=[]))
     for sk in ('A', 'B'):
         qs.append(dict(kind='skel', skel=sk, numtype='float', sym=['nums', 'cfg', 'hostvalue'], host_order='reversed'))
         qs.append(dict(kind='skel', skel=sk, numtype='float', sym=['nums', 'limit'], first='A'))
